@@ -272,8 +272,9 @@ impl<T, U> Framed<T, U> {
         T: AsyncWrite,
         U: Encoder<I>,
     {
+        // write out buffered frames (and flush the underlying IO) before shutting down
+        ready!(self.as_mut().flush(cx))?;
         let mut this = self.as_mut().project();
-        ready!(this.io.as_mut().poll_flush(cx))?;
         ready!(this.io.as_mut().poll_shutdown(cx))?;
         Poll::Ready(Ok(()))
     }
